@@ -76,6 +76,18 @@ ran): C16/C17 `Post` operations, C06 log-sink scheduling point, C20 late transmi
 honest copy because the digest is raw hex): C09 variants now sort on both sides; (ix) *releases that were
 not check-block aware* in the C09 bookkeeping; (x) *real races on the retry queue and in the simulator's
 trackers*: TestC12QueueRace, TestC20Race (component stress under `-race`).
+Wave 4 (30 changes for ten properties, ids `Cxx-w4-k`) asked the seeding agents for mechanisms of a different
+KIND than everything above (state surviving between calls, aliasing, error / cancellation paths, wrap-around,
+ordering assumptions, interactions of two limits, shared helpers, unusual configurations, files other than the
+obvious one). 16 of 30 were flagged on the first run; the 14 misses and what they led to: a pre-processor chain that
+only keeps the last filter (C07: work offered again through the plug-in's own providers), a cache whose deadline
+is not refreshed and a gas value lowered inside Reports and an off-by-one at exactly 100 performables (C09: three
+new scenario families with liveness / safety obligations), a comparator that wraps at 2^63 and a memoised shuffle
+that is not atomic across instances (C02: 2^63-apart heights, concurrent evaluations with another digest), lazy
+deletion in the ordered map (C08: expired proposals made again), "performed" answered before the cap (C05),
+equal height on another fork (C10), a cancelled context after the pipeline answered (C13), a mutex left locked by
+a recovered panic (C18: type-getter site), an in-place trim of a handed-out slice and a sub-millisecond jitter
+(C20), idle workers forgotten (C14).
 A rewritten function usually leaves the translator's subset: the obligation of that unit is then checked
 against the pinned term only and the property is explored as *drifted* (twice the cases, three seeds) - of
 the 45 first-run catches, the translator obligations broke (proof-level catch, then a failing input found by
